@@ -4,12 +4,13 @@ from .. import nodegen
 from ._nodecommon import *
 
 ID = "C10"
-LEAN_MODULES = ["VpnCloud.Proofs.C10", "VpnCloud.Proofs.C10More"]
+LEAN_MODULES = ["VpnCloud.Proofs.C10", "VpnCloud.Proofs.C10More", "VpnCloud.Proofs.C10Net"]
 THEOREMS = ["VpnCloud.Proofs.C10." + n for n in ("iface_read_no_iface_write", "iface_read_only_to_peers", "net_never_relays")] + [
     "VpnCloud.Proofs.C10More." + n for n in ("iface_write_only_from_peer_data", "non_peer_never_reaches_iface", "handshake_never_reaches_iface", "at_most_one_iface_write",
         "housekeep_no_iface", "connect_no_iface", "housekeep_sends_no_payload", "housekeep_never_sends_data", "emit_known", "emit_unknown_broadcast",
         "broadcast_dests_sublist", "broadcast_each_is_seal", "broadcast_reaches_all", "emit_unknown_router", "delivered_exactly_once", "one_hop_exactly_once",
         "one_hop_in_sync", "pendFreshAt_of_reach")] + ["VpnCloud.Proofs.C10MoreLemmas.session_roundtrip", "VpnCloud.Proofs.C10MoreLemmas.session_roundtrip_plain"]
+THEOREMS = THEOREMS + ["VpnCloud.Proofs.C10Net." + n for n in ('stream_delivered_exactly_once', 'stream_delivered_exactly_once_quiet', 'duplicate_within_window_accepted', 'duplicate_rejected_after_two_ticks', 'frames_delivered_exactly_once', 'frames_delivered_same_mode', 'misdelivered_never_reaches_iface', 'no_other_node')]
 RULE = ("suite node: frames (destination claimed / learned / unknown / broadcast / own address / garbage) injected at any node of 2-5 node meshes in router, switch, hub and normal mode with "
         "tun and tap dissectors; per step: wire datagrams caused by an interface read = number of selected peers (by the node's own dumped table), wire datagrams caused by a received payload = 0, "
         "interface writes = deliveries of byte-identical payload of an established peer; distinct non-trivial = distinct (op, #datagrams out, #interface writes, #peers, #pending, mutation kind)")
